@@ -348,6 +348,113 @@ func poolHistory[T constraints.Integer](c *mon.Case, base T, tname string) {
 	c.Count("pool_history_ops", 24)
 }
 
+// ---- split universe: 12 points at lo.. and 12 points at hi.., the two halves so far
+// apart that differences of their values overflow the signed range of the type (sorting
+// or comparing by subtraction goes wrong exactly there)
+type split[T constraints.Integer] struct{ lo, hi T }
+
+func (u split[T]) val(i int) T {
+	if i < 12 {
+		return u.lo + T(i)
+	}
+	return u.hi + T(i-12)
+}
+
+func (u split[T]) intervals(list [][2]int) []interval.Interval[T] {
+	var out []interval.Interval[T]
+	for _, l := range list {
+		out = append(out, interval.New(u.val(l[0]), u.val(l[1]-1)+1))
+	}
+	return out
+}
+
+// clipHalf cuts list entries at the border between the halves.
+func clipHalf(list [][2]int) [][2]int {
+	var out [][2]int
+	for _, l := range list {
+		if l[0] < 12 && l[1] > 12 {
+			out = append(out, [2]int{l[0], 12}, [2]int{12, l[1]})
+		} else {
+			out = append(out, l)
+		}
+	}
+	return out
+}
+
+func (u split[T]) verify(m interval.Map[T], want uint64) string {
+	is := m.Intervals()
+	var got uint64
+	for k, iv := range is {
+		if !(iv.Begin() < iv.End()) {
+			return fmt.Sprintf("empty or inverted interval [%d,%d)", iv.Begin(), iv.End())
+		}
+		if k > 0 && !(is[k-1].End() < iv.Begin()) {
+			return fmt.Sprintf("intervals not sorted/disjoint/non-adjacent: %s", fmtIntvs(is))
+		}
+		var off int
+		switch {
+		case iv.Begin() >= u.lo && iv.End() <= u.lo+12 && iv.End() > u.lo:
+			off = int(iv.Begin() - u.lo)
+		case iv.Begin() >= u.hi && iv.End() <= u.hi+12 && iv.End() > u.hi:
+			off = 12 + int(iv.Begin()-u.hi)
+		default:
+			return fmt.Sprintf("interval [%d,%d) outside the universe", iv.Begin(), iv.End())
+		}
+		for i := 0; i < int(iv.End()-iv.Begin()); i++ {
+			got |= 1 << uint(off+i)
+		}
+	}
+	// the end of the low half and the begin of the high half are not adjacent values
+	if got != want {
+		return fmt.Sprintf("denotes bitset %#x of the 24 universe points, want %#x: %s", got, want, fmtIntvs(is))
+	}
+	return ""
+}
+
+func splitCase[T constraints.Integer](c *mon.Case, lo, hi T, tname string) {
+	u := split[T]{lo, hi}
+	type ent struct {
+		m    interval.Map[T]
+		mask uint64
+	}
+	var pool []ent
+	for i := 0; i < 3; i++ {
+		l := clipHalf(randList(c, 24))
+		c.Rng.Shuffle(len(l), func(a, b int) { l[a], l[b] = l[b], l[a] })
+		var m interval.Map[T]
+		p, val, stack := mon.Try(func() { m = interval.NewMap(u.intervals(l)...) })
+		c.Eval(1)
+		if p {
+			c.Fail("C17.newmap.panic", map[string]string{"universe": "far-apart"}, "NewMap(%s) over %s panicked: %v\n%s", fmtIntvs(u.intervals(l)), tname, val, stack)
+			return
+		}
+		if msg := u.verify(m, maskOf(l)); msg != "" {
+			c.Fail("C17.newmap.result", map[string]string{"universe": "far-apart"}, "NewMap(%s) over %s = %s: %s", fmtIntvs(u.intervals(l)), tname, fmtIntvs(m.Intervals()), msg)
+			return
+		}
+		pool = append(pool, ent{m, maskOf(l)})
+	}
+	for step := 0; step < 8; step++ {
+		op := ops[c.Rng.Intn(3)]
+		a, b := pool[c.Rng.Intn(len(pool))], pool[c.Rng.Intn(len(pool))]
+		var res interval.Map[T]
+		p, val, stack := mon.Try(func() { res = apply(op.name, a.m, b.m) })
+		c.Eval(1)
+		feat := map[string]string{"op": op.name, "universe": "far-apart"}
+		if p {
+			c.Fail("C17.op.panic", feat, "%s(%s, %s) over %s panicked: %v\n%s", op.name, fmtIntvs(a.m.Intervals()), fmtIntvs(b.m.Intervals()), tname, val, stack)
+			return
+		}
+		want := op.ref(a.mask, b.mask)
+		if msg := u.verify(res, want); msg != "" {
+			c.Fail("C17.op.result", feat, "%s(%s, %s) over %s = %s: %s", op.name, fmtIntvs(a.m.Intervals()), fmtIntvs(b.m.Intervals()), tname, fmtIntvs(res.Intervals()), msg)
+			return
+		}
+		pool = append(pool, ent{res, want})
+	}
+	c.Count("far_apart_universe_cases", 1)
+}
+
 func minInt(a, b int) int {
 	if a < b {
 		return a
@@ -421,6 +528,18 @@ func run(c *mon.Case) {
 			randomCase[uint64](c, 1<<63-12, "uint64@2^63")
 			poolHistory[uint64](c, 1<<63-12, "uint64@2^63")
 		}
+		switch c.Rng.Intn(5) {
+		case 0:
+			splitCase[uint64](c, 0x1000, 0xffffffff80000000, "uint64 low/high half")
+		case 1:
+			splitCase[uint64](c, 0, math.MaxUint64-12, "uint64 0/max")
+		case 2:
+			splitCase[int64](c, math.MinInt64, math.MaxInt64-12, "int64 min/max")
+		case 3:
+			splitCase[int16](c, math.MinInt16, math.MaxInt16-12, "int16 min/max")
+		default:
+			splitCase[uint8](c, 0, 200, "uint8 0/200")
+		}
 		c.Count("random_histories", 1)
 		if c.WantSample() {
 			c.Sample(fmt.Sprintf("random case %d: two lists of <=8 possibly overlapping intervals through NewMap, 3 ops, and a 4-step chain", c.Idx))
@@ -431,7 +550,7 @@ func run(c *mon.Case) {
 func main() {
 	mon.Main(mon.Spec{
 		Prop: "C17",
-		Rule: "case = (operation, operand sets); exhaustive over all pairs of subsets of a small universe in canonical form, all lists of <=3 intervals over 7 points through NewMap, plus random interval lists with duplicates/nesting/adjacency at the extremes of uint8/int16/uint64; non-trivial = result has >=2 intervals, or an operand is empty, or one interval spans two of the other operand",
+		Rule: "case = (operation, operand sets); exhaustive over all pairs of subsets of a small universe in canonical form, all lists of <=3 intervals over 7 points through NewMap, plus random interval lists with duplicates/nesting/adjacency at the extremes of uint8/int16/uint64, and over a split universe whose two halves lie at opposite ends of the type's range (uint64 low/high half, int64 min/max, ...); non-trivial = result has >=2 intervals, or an operand is empty, or one interval spans two of the other operand",
 		Explanation: "oracle: bitset over the universe; every result must be sorted, disjoint, non-adjacent, non-empty and denote exactly the reference set; operands must be unchanged; in the pool histories (24 operations whose operands are earlier operands and results) every map built or returned so far must still denote its set after each operation; panics are violations. exhaustive=true refers to the pair enumeration over the 10-point (quick) / 12-point (thorough) universe and the NewMap list enumeration.",
 		Assumptions: []string{"bitset reference over a <=24 point window", "interval.New with begin<end is the only way inputs are built"},
 		Cases:       cases,
@@ -442,7 +561,7 @@ func main() {
 			return 200000
 		},
 		Exhaustive:     func(string) bool { return true },
-		RequiredCounts: []string{"pool_history_ops", "random_histories", "exhaustive_pairs"},
+		RequiredCounts: []string{"far_apart_universe_cases", "pool_history_ops", "random_histories", "exhaustive_pairs"},
 		Run:        run,
 	})
 }
